@@ -366,3 +366,10 @@ package fstree
 //@   property C11 C10
 //@   callee bytes.NewReader
 //@   requires [decoder_reads_a_copy_not_the_callers_buffer] resultOf(a0, "slices.Clone")
+
+// ---- C10 (small plain files): a file shorter than a combined-entry prefix is a plain object,
+// not a failure: the short read of the prefix (EOF with nothing, "unexpected EOF" with 1..37
+// bytes) is never returned as the read's error - the bytes read are the object.
+//@ func (*FSTree).extractCombinedObject
+//@   property C10
+//@   ensures [short_read_of_the_prefix_is_not_an_error_of_the_read] res1 != nil && resultOf(res1, "io.ReadFull") ==> !errIs(res1, io.ErrUnexpectedEOF) && !errIs(res1, io.EOF)
